@@ -13,7 +13,7 @@
    harness/h_graph.cpp, finding "fresh-graph-ignores-dependencies").  It HOLDS for every prepared counter state
    (preparedb = what setAllNodesIncomplete / ForwardPropagator establish), for every schedule (C30_holds_except). *)
 From Coq Require Import ZArith List Bool PArith FMapPositive Lia.
-From DV Require Import Base.MachInt Model.GraphModel Model.C30Check Proofs.C30Proofs.
+From DV Require Import Base.MachInt Model.GraphModel Model.C30Check Proofs.C30Proofs Proofs.C30TermProofs Proofs.GraphClearProofs.
 Import ListNotations.
 Local Open Scope Z_scope.
 
@@ -81,19 +81,52 @@ Theorem C30_single_thread : forall x c,
 Proof. exact C30_single_thread_proof. Qed.
 Print Assumptions C30_single_thread.
 
-(* no deadlock: until everything has run, some thread can take a step (with C30_holds_except: at quiescence every
-   incomplete node has run exactly once) *)
+(* no deadlock: until everything has run, some thread can take a step ... *)
 Theorem C30_progress : forall x wave s,
   quiescent s = false -> (wave = true \/ s_buf s = []) -> exists t, step x wave s t <> None.
 Proof. exact progress. Qed.
 Print Assumptions C30_progress.
 
-(* setAllNodesIncomplete establishes the prepared state on every well-formed graph (numPredecessors_ = number of
-   occurrences in dependents_ lists) ... *)
+(* ... and termination: under ANY schedule at most 4*|nodes| + 2*|edges| steps take effect (effective counts the schedule
+   entries whose thread could move), so every fair execution reaches quiescence, where by C30_holds_except every incomplete
+   node has run exactly once; the single-thread executor model reaches it within its fuel *)
+Theorem C30_bounded_steps : forall x wave c sched, c30_finding_domain x c = false ->
+  (effective x wave (init_st x c) sched <= 4 * length (x_nodes x) + 2 * edge_count x)%nat.
+Proof. exact C30_bounded_proof. Qed.
+Print Assumptions C30_bounded_steps.
+
+Theorem C30_single_thread_terminates : forall x c, c30_finding_domain x c = false -> quiescent (exec_seq x c) = true.
+Proof. exact C30_terminates_proof. Qed.
+Print Assumptions C30_single_thread_terminates.
+
+(* setAllNodesIncomplete establishes the prepared state on every well-formed graph (wfgb: numPredecessors_ = number of
+   occurrences in dependents_ lists, dependents are nodes of the graph, no duplicate nodes) ... *)
 Theorem C30_setAll_prepares : forall g, wfgb g = true ->
   c30_finding_domain (xg_of (set_all_incomplete g)) (g_cnt (set_all_incomplete g)) = false.
 Proof. intros g H. unfold c30_finding_domain. rewrite (setAll_prepared g H). reflexivity. Qed.
 Print Assumptions C30_setAll_prepares.
+
+(* ... and the construction ops keep graphs well-formed.  Subgraph::clear() with its edge surgery
+   (decrementDependentCounters / markNodesWithPredicessors / removePredecessorDependencies: swap-remove loop with a budget and an
+   early return): afterwards no dependents_ list of a surviving node mentions a destroyed node and every
+   numPredecessors_ equals the number of occurrences in the remaining dependents_ lists.
+   small_graph = fewer than 2^64-1 edges (the size_t budget of clear() does not wrap); fresh_ok = ids come from the counter. *)
+Theorem C30_clear_edge_surgery_correct : forall g sg,
+  wfgb g = true -> small_graph g -> fresh_ok g ->
+  let g' := clear_subgraph g sg in
+  wfgb g' = true /\ fresh_ok g' /\ small_graph g' /\
+  (forall n, In n (g_nodes g') -> In n (g_nodes g)) /\
+  (forall p d, In p (g_nodes g') -> In d (getl (g_deps g') p) -> In d (g_nodes g')) /\
+  (forall d, In d (g_nodes g') -> getz (g_np g') d = Z.of_nat (np_count g' d)).
+Proof. exact clear_wf_proof. Qed.
+Print Assumptions C30_clear_edge_surgery_correct.
+
+Theorem C30_construction_wf : forall g o,
+  wfgb g = true -> small_graph g -> fresh_ok g -> op_valid g o ->
+  match o with OSub | ONode _ | ODep _ _ | OBip _ _ | OClear _ => True | _ => False end ->
+  forall g', apply_op g o = Some g' -> small_graph g' -> wfgb g' = true /\ fresh_ok g'.
+Proof. exact construction_wf_proof. Qed.
+Print Assumptions C30_construction_wf.
 
 (* the hypotheses are satisfiable by non-trivial inputs: a diamond with a duplicated edge (a) fully prepared and run by the
    concurrent executor under an interleaved schedule of three tasks, (b) partially re-evaluated (node 3 marked, ForwardPropagator):
